@@ -1,5 +1,5 @@
 CONSTANTS
-  Alphabet = {"1", "0", "2", "/", ".", "-", " ", "%", "a", "=", "|"}
+  Alphabet = {"1", "0", "2", "/", ".", "-", " ", "%", "a", "=", "|", "NBSP"}
   MaxLen = 4
   Prefix <- PfxCwBrace
   Suffix <- SfxBrace
